@@ -31,6 +31,7 @@ func checkC12(c *Ctx, r *Report) {
 	readErrorNotOverwritten(c, r, "C12.R1.read-error-not-overwritten")
 	readersCutToCount(c, r, "C12.R4.readers-cut-to-count")
 	noReadAhead(c, r, "C12.R1.no-read-ahead")
+	udpSessionWrite(c, r, "C12.R2.udp-session-write")
 	matchingIdEndsWait(c, r, "C12.R3.matching-id-ends-wait")
 }
 
